@@ -292,7 +292,8 @@ Proof. destruct t as [[x y] z]. cbn. intros H (H1 & H2 & H3). auto. Qed.
 
 Lemma ext_ring_range n off N apex :
   0 <= N ->
-  Forall (tri_all (fun x => (off - N <= x < off + zn n) \/ apex = Some x)) (ext_ring n off N apex).
+  Forall (tri_all (fun x => (off - N <= x < off + zn n - (match apex with Some _ => N | None => 0 end))
+                            \/ apex = Some x)) (ext_ring n off N apex).
 Proof.
   intros HN. unfold ext_ring. apply Forall_flat_map. intros v Hv. apply in_seq in Hv.
   unfold ext_vert. assert (Hz : 0 <= zn v < zn n) by (unfold zn; lia).
@@ -301,27 +302,30 @@ Proof.
     try apply Nat.eqb_neq in E; unfold zn in *; lia.
 Qed.
 
+Lemma total_cons n r : total (n :: r) = zn n + total r.
+Proof. reflexivity. Qed.
+
 Lemma total_nonneg sizes : 0 <= total sizes.
-Proof. induction sizes as [|n r IH]; cbn; unfold zn; lia. Qed.
+Proof. induction sizes as [|n r IH]; [cbn; lia|]. rewrite total_cons. unfold zn. lia. Qed.
 
 Lemma ext_level_range sizes N i cone idx j :
   0 <= N ->
-  Forall (tri_all (fun x => (idx + N * i - N <= x < idx + N * i + total sizes) \/
+  Forall (tri_all (fun x => (idx + N * i - N <= x < idx + N * i + total sizes - (if cone : bool then N else 0)) \/
                             (cone = true /\ N * i + j <= x < N * i + j + zn (length sizes))))
          (ext_level sizes N i cone idx j).
 Proof.
-  intros HN. remember (N * i) as B eqn:EB. clear EB.
+  intros HN.
   revert idx j; induction sizes as [|n rest IH]; intros idx j; cbn [ext_level]; [constructor|].
   pose proof (total_nonneg rest) as Ht.
   apply Forall_app; split.
   - eapply Forall_impl; [|apply ext_ring_range; exact HN].
     intros t. apply tri_all_impl. intros x [Hx|Hx].
-    + left. cbn [total fold_right]. fold (total rest). lia.
+    + left. rewrite total_cons. destruct cone; cbn beta iota in *; lia.
     + right. destruct cone; [|discriminate]. inversion Hx; subst x. split; [reflexivity|].
       cbn [length]. unfold zn. lia.
   - eapply Forall_impl; [|apply IH].
     intros t. apply tri_all_impl. intros x [Hx|Hx].
-    + left. cbn [total fold_right]. fold (total rest). unfold zn in *. lia.
+    + left. rewrite total_cons. unfold zn in *. destruct cone; lia.
     + right. destruct Hx as [Hc Hx]. split; [exact Hc|]. cbn [length]. unfold zn in *. lia.
 Qed.
 
@@ -339,7 +343,7 @@ Proof.
   { intros H Hc. subst isCone. cbn in H. apply Nat.eqb_neq in H. unfold zn. lia. }
   assert (Hlen : 0 <= zn (length sizes)) by (unfold zn; lia).
   assert (Key : forall x,
-    (0 + N * zn i - N <= x < 0 + N * zn i + N) \/
+    (0 + N * zn i - N <= x < 0 + N * zn i + N - (if (isCone && Nat.eqb i (S nDivArg)) then N else 0)) \/
     ((isCone && Nat.eqb i (S nDivArg)) = true /\ N * zn i + 0 <= x < N * zn i + 0 + zn (length sizes)) ->
     0 <= x < (if isCone then N * zn (S nDivArg) + zn (length sizes) else N * (zn (S nDivArg) + 1))).
   { intros w [Hw|[Hc Hw]].
@@ -349,4 +353,446 @@ Proof.
     - destruct (Hcone Hc) as [-> Hi2]. rewrite <- Hi2. nia. }
   intros (H1 & H2 & H3). repeat split; try (apply Key; assumption).
   all: try (apply (proj1 (Key _ ltac:(eassumption)))); try (apply (proj2 (Key _ ltac:(eassumption)))).
+Qed.
+
+(* ----------------------------------------------------------------- Revolve *)
+(* vertex k of the column of a polygon vertex with first index S: positive
+   vertices have one vertex per slice, axis vertices a single one *)
+Definition col (S : Z) (p : bool) (k : Z) : Z := if p then S + k else S.
+
+Lemma slice_coef s ps (cur prev : bool) la sl a b :
+  tcoef ((if cur then [(s + sl, s + la, if prev then ps + la else ps)] else [])
+         ++ (if prev then [(ps + la, ps + sl, if cur then s + sl else s)] else [])) a b =
+  (ecoef (col ps prev la, col ps prev sl) a b - ecoef (col s cur la, col s cur sl) a b) +
+  (ecoef (col s cur la, col ps prev la) a b - ecoef (col s cur sl, col ps prev sl) a b).
+Proof.
+  unfold col. destruct cur, prev; cbn [app].
+  - rewrite tcoef_cons, !tcoef_one.
+    pose proof (ecoef_rev (s + la) (s + sl) a b). pose proof (ecoef_rev (s + sl) (ps + la) a b).
+    pose proof (ecoef_rev (s + sl) (ps + sl) a b). lia.
+  - rewrite tcoef_one, ecoef_loop.
+    pose proof (ecoef_rev (s + la) (s + sl) a b). pose proof (ecoef_rev (s + sl) ps a b). lia.
+  - rewrite tcoef_one, ecoef_loop. pose proof (ecoef_rev s (ps + sl) a b). lia.
+  - rewrite tcoef_nil, !ecoef_loop. lia.
+Qed.
+
+Definition ringc (nDiv : nat) (full : bool) (S : Z) (p : bool) (a b : Z) : Z :=
+  if full then lsum (fun v => ecoef (col S p (zn (lastv nDiv v)), col S p (zn v)) a b) (seq 0 nDiv)
+  else lsum (fun k => ecoef (col S p (zn (Nat.pred k)), col S p (zn k)) a b) (seq 1 nDiv).
+
+Lemma rev_vert_coef nDiv (full : bool) s ps (cur prev : bool) a b :
+  tcoef (rev_vert nDiv (rev_nslices nDiv full) full s ps cur prev) a b =
+  ringc nDiv full ps prev a b - ringc nDiv full s cur a b +
+  (if full then 0
+   else ecoef (col s cur 0, col ps prev 0) a b - ecoef (col s cur (zn nDiv), col ps prev (zn nDiv)) a b).
+Proof.
+  unfold rev_vert, ringc, rev_nslices. rewrite tcoef_flat_map. destruct full; cbn [orb].
+  - set (G := fun k : nat => ecoef (col s cur (zn k), col ps prev (zn k)) a b).
+    rewrite (lsum_ext _ (fun v =>
+       (ecoef (col ps prev (zn (lastv nDiv v)), col ps prev (zn v)) a b
+        - ecoef (col s cur (zn (lastv nDiv v)), col s cur (zn v)) a b) + (G (lastv nDiv v) - G v))).
+    + rewrite lsum_plus, !lsum_minus, (lsum_cyc G). lia.
+    + intros v Hv. apply in_seq in Hv. rewrite <- (zn_lastv nDiv v) by lia. apply slice_coef.
+  - cbn [seq lsum Nat.eqb negb]. rewrite tcoef_nil.
+    set (G := fun k : nat => ecoef (col s cur (zn k), col ps prev (zn k)) a b).
+    rewrite (lsum_ext _ (fun k =>
+       (ecoef (col ps prev (zn (Nat.pred k)), col ps prev (zn k)) a b
+        - ecoef (col s cur (zn (Nat.pred k)), col s cur (zn k)) a b) + (G (Nat.pred k) - G k))).
+    + rewrite lsum_plus, lsum_minus, (lsum_tele G). unfold G. cbn [Nat.add]. change (zn 0) with 0. lia.
+    + intros k Hk. apply in_seq in Hk. destruct k as [|k]; [lia|]. cbn [Nat.eqb negb Nat.pred].
+      replace (zn (S k) - 1) with (zn k) by (unfold zn; lia). apply slice_coef.
+Qed.
+
+(* prefix sums of column widths *)
+Fixpoint wsum (nSlices : nat) (fl : list bool) : Z :=
+  match fl with [] => 0 | c :: r => col_width nSlices c + wsum nSlices r end.
+
+Fixpoint rev_go_tris (all rem : list bool) (nDiv nSlices : nat) (full : bool)
+         (nAxis nPos : Z) (pv : nat) (s : Z) : list itri :=
+  match rem with
+  | [] => []
+  | cur :: rest =>
+      let prev := nth (if Nat.eqb pv 0 then length all - 1 else pv - 1)%nat all false in
+      let prevStart := s + (if Nat.eqb pv 0 then nAxis + zn nSlices * nPos else 0)
+                         + (if prev then - zn nSlices else -1) in
+      rev_vert nDiv nSlices full s prevStart cur prev
+      ++ rev_go_tris all rest nDiv nSlices full nAxis nPos (S pv) (s + col_width nSlices cur)
+  end.
+
+Fixpoint cs_from (nSlices : nat) (rem : list bool) (s : Z) : list Z :=
+  match rem with [] => [] | c :: r => s :: cs_from nSlices r (s + col_width nSlices c) end.
+Fixpoint en_from (nSlices : nat) (rem : list bool) (s : Z) : list Z :=
+  match rem with [] => [] | c :: r => (s + col_width nSlices c - 1) :: en_from nSlices r (s + col_width nSlices c) end.
+
+Lemma rev_poly_go_eq all rem nDiv nSlices full nAxis nPos pv s :
+  rev_poly_go all rem nDiv nSlices full nAxis nPos pv s =
+  (rev_go_tris all rem nDiv nSlices full nAxis nPos pv s, cs_from nSlices rem s, en_from nSlices rem s,
+   s + wsum nSlices rem).
+Proof.
+  revert pv s; induction rem as [|c r IH]; intros pv s; cbn [rev_poly_go rev_go_tris cs_from en_from wsum].
+  - f_equal. lia.
+  - rewrite IH. f_equal. lia.
+Qed.
+
+Lemma wsum_app k l1 l2 : wsum k (l1 ++ l2) = wsum k l1 + wsum k l2.
+Proof. induction l1 as [|c r IH]; cbn [wsum app]; lia. Qed.
+
+Lemma wsum_counts k fl : (1 <= k)%nat -> wsum k fl = count_axis fl + zn k * count_pos fl.
+Proof.
+  intros Hk. unfold count_axis, count_pos. induction fl as [|c r IH]; cbn [wsum filter]; [cbn; lia|].
+  rewrite IH. unfold col_width. replace (Nat.eqb k 0) with false by (symmetry; apply Nat.eqb_neq; lia).
+  destruct c; cbn [negb length]; unfold zn; lia.
+Qed.
+
+Lemma firstn_S_nth {A} (d : A) l u : (u < length l)%nat -> firstn (S u) l = firstn u l ++ [nth u l d].
+Proof.
+  revert u; induction l as [|x l IH]; intros u Hu; cbn [length] in Hu; [lia|].
+  destruct u; cbn [firstn nth app]; [reflexivity|]. f_equal. apply IH. lia.
+Qed.
+
+(* start index of the column of vertex u of the polygon `all` that begins at s0 *)
+Definition cstart (k : nat) (all : list bool) (s0 : Z) (u : nat) : Z := s0 + wsum k (firstn u all).
+
+Lemma cstart_S k all s0 u : (u < length all)%nat ->
+  cstart k all s0 (S u) = cstart k all s0 u + col_width k (nth u all false).
+Proof.
+  intros Hu. unfold cstart. rewrite (firstn_S_nth false) by exact Hu. rewrite wsum_app. cbn [wsum]. lia.
+Qed.
+
+Lemma cstart_len k all s0 : cstart k all s0 (length all) = s0 + wsum k all.
+Proof. unfold cstart. rewrite firstn_all. reflexivity. Qed.
+
+Lemma col_width_neg k (p : bool) : (1 <= k)%nat -> (if p then - zn k else -1) = - col_width k p.
+Proof.
+  intros Hk. unfold col_width. replace (Nat.eqb k 0) with false by (symmetry; apply Nat.eqb_neq; lia).
+  destruct p; lia.
+Qed.
+
+(* what the polygon contributes per vertex *)
+Definition vterm nDiv (full : bool) k (all : list bool) s0 (a b : Z) (u : nat) : Z :=
+  let n := length all in
+  let H := fun w => ringc nDiv full (cstart k all s0 w) (nth w all false) a b in
+  H (lastv n u) - H u +
+  (if full then 0
+   else ecoef (cstart k all s0 u, cstart k all s0 (lastv n u)) a b
+        - ecoef (col (cstart k all s0 u) (nth u all false) (zn nDiv),
+                 col (cstart k all s0 (lastv n u)) (nth (lastv n u) all false) (zn nDiv)) a b).
+
+Lemma rev_go_tris_coef all pre rem nDiv full s0 a b :
+  let k := rev_nslices nDiv full in
+  (1 <= k)%nat ->
+  all = pre ++ rem ->
+  tcoef (rev_go_tris all rem nDiv k full (count_axis all) (count_pos all) (length pre)
+                     (cstart k all s0 (length pre))) a b =
+  lsum (vterm nDiv full k all s0 a b) (seq (length pre) (length rem)).
+Proof.
+  intros k Hk. revert pre; induction rem as [|c r IH]; intros pre Hall; cbn [rev_go_tris length seq lsum].
+  - reflexivity.
+  - assert (Hlen : length all = (length pre + S (length r))%nat) by (subst all; rewrite app_length; reflexivity).
+    assert (Hc : nth (length pre) all false = c).
+    { subst all. rewrite app_nth2 by lia. replace (length pre - length pre)%nat with 0%nat by lia. reflexivity. }
+    rewrite tcoef_app.
+    specialize (IH (pre ++ [c])). rewrite app_length in IH. cbn [length] in IH.
+    replace (length pre + 1)%nat with (S (length pre)) in IH by lia.
+    rewrite cstart_S in IH by lia. rewrite Hc in IH.
+    rewrite IH by (subst all; rewrite <- app_assoc; reflexivity).
+    f_equal.
+    (* the vertex itself *)
+    fold k.
+    set (pv := length pre) in *.
+    assert (Hprev : (if Nat.eqb pv 0 then length all - 1 else pv - 1)%nat = lastv (length all) pv).
+    { unfold lastv. destruct (Nat.eqb pv 0); reflexivity. }
+    rewrite Hprev. set (pu := lastv (length all) pv).
+    assert (Hpu : (pu < length all)%nat).
+    { unfold pu, lastv. destruct (Nat.eqb pv 0) eqn:E; [lia|]. apply Nat.eqb_neq in E. lia. }
+    assert (Hps : cstart k all s0 pv + (if Nat.eqb pv 0 then count_axis all + zn k * count_pos all else 0)
+                  + (if nth pu all false then - zn k else -1) = cstart k all s0 pu).
+    { rewrite col_width_neg by exact Hk. unfold pu, lastv. destruct (Nat.eqb pv 0) eqn:E.
+      - apply Nat.eqb_eq in E. rewrite E. rewrite <- wsum_counts by exact Hk.
+        pose proof (cstart_S k all s0 (length all - 1) ltac:(lia)) as HS.
+        replace (S (length all - 1)) with (length all) in HS by lia.
+        rewrite cstart_len in HS. unfold cstart at 1. cbn [firstn wsum]. lia.
+      - apply Nat.eqb_neq in E.
+        pose proof (cstart_S k all s0 (pv - 1) ltac:(lia)) as HS.
+        replace (S (pv - 1)) with pv in HS by lia. lia. }
+    rewrite Hps. subst k. rewrite rev_vert_coef. unfold vterm. fold pu. rewrite Hc.
+    unfold col at 1 2. destruct c, (nth pu all false); cbn beta iota;
+      rewrite ?Z.add_0_r; reflexivity.
+Qed.
+
+Lemma nth_cs_from k rem s u :
+  (u < length rem)%nat -> nth u (cs_from k rem s) (-1) = s + wsum k (firstn u rem).
+Proof.
+  revert s u; induction rem as [|c r IH]; intros s u Hu; cbn [length] in Hu; [lia|].
+  destruct u; cbn [cs_from nth firstn wsum]; [lia|]. rewrite IH by lia. lia.
+Qed.
+
+Lemma nth_en_from k rem s u :
+  (u < length rem)%nat ->
+  nth u (en_from k rem s) (-1) = s + wsum k (firstn u rem) + col_width k (nth u rem false) - 1.
+Proof.
+  revert s u; induction rem as [|c r IH]; intros s u Hu; cbn [length] in Hu; [lia|].
+  destruct u; cbn [en_from nth firstn wsum]; [lia|]. rewrite IH by lia. lia.
+Qed.
+
+Lemma length_cs_from k rem s : length (cs_from k rem s) = length rem.
+Proof. revert s; induction rem; intros s; cbn; [reflexivity|]. rewrite IHrem. reflexivity. Qed.
+Lemma length_en_from k rem s : length (en_from k rem s) = length rem.
+Proof. revert s; induction rem; intros s; cbn; [reflexivity|]. rewrite IHrem. reflexivity. Qed.
+
+Lemma lastv_lt n v : (v < n)%nat -> (lastv n v < n)%nat.
+Proof. unfold lastv. destruct v; cbn [Nat.eqb]; lia. Qed.
+
+Lemma nthz_nat l u : nthz l (zn u) = nth u l (-1).
+Proof. unfold nthz, zn. rewrite Nat2Z.id. reflexivity. Qed.
+
+(* one polygon *)
+Lemma rev_poly_coef fl nDiv full s0 a b :
+  let k := rev_nslices nDiv full in
+  (1 <= k)%nat ->
+  let '(ts, st, en, s1) := rev_poly fl nDiv k full s0 in
+  tcoef ts a b =
+  (if full then 0
+   else ccoef (contour (nthz en) 0 (length fl)) a b - ccoef (contour (nthz st) 0 (length fl)) a b)
+  /\ st = cs_from k fl s0 /\ en = en_from k fl s0 /\ s1 = s0 + wsum k fl.
+Proof.
+  intros k Hk. unfold rev_poly. rewrite rev_poly_go_eq.
+  split; [|auto].
+  pose proof (rev_go_tris_coef fl [] fl nDiv full s0 a b Hk eq_refl) as H.
+  cbn [length] in H. unfold cstart at 1 in H. cbn [firstn wsum] in H.
+  replace (s0 + 0) with s0 in H by lia. fold k in H. rewrite H. clear H.
+  set (n := length fl).
+  set (Hf := fun w => ringc nDiv full (cstart k fl s0 w) (nth w fl false) a b).
+  unfold vterm. fold n.
+  rewrite lsum_plus, lsum_minus.
+  pose proof (lsum_cyc Hf n) as Hc. unfold Hf in Hc. cbn beta in Hc. rewrite Hc. clear Hc.
+  destruct full.
+  - rewrite lsum_zero. lia.
+  - unfold contour. rewrite !ccoef_map.
+    assert (Hk' : k = S nDiv) by reflexivity.
+    rewrite <- (lsum_minus (fun k0 => ecoef (nthz (en_from k fl s0) (0 + zn (lastv n k0)), nthz (en_from k fl s0) (0 + zn k0)) a b)).
+    match goal with |- ?X - ?X + ?L = ?R => enough (L = R) by lia end.
+    apply lsum_ext. intros u Hu. apply in_seq in Hu.
+    pose proof (lastv_lt n u ltac:(lia)) as Hl.
+    rewrite !Z.add_0_l, !nthz_nat.
+    rewrite !nth_cs_from, !nth_en_from by (fold n; lia).
+    fold (cstart k fl s0 u). fold (cstart k fl s0 (lastv n u)).
+    rewrite (ecoef_rev (cstart k fl s0 (lastv n u)) (cstart k fl s0 u)).
+    rewrite (ecoef_rev (col (cstart k fl s0 (lastv n u)) (nth (lastv n u) fl false) (zn nDiv))).
+    assert (Hcol : forall w, col (cstart k fl s0 w) (nth w fl false) (zn nDiv) =
+                             cstart k fl s0 w + col_width k (nth w fl false) - 1).
+    { intros w. unfold col, col_width. rewrite Hk'. cbn [Nat.eqb]. destruct (nth w fl false); unfold zn; lia. }
+    rewrite !Hcol. lia.
+Qed.
+
+Lemma contour_ext f g off off' n :
+  (forall i, 0 <= i < zn n -> f (off + i) = g (off' + i)) -> contour f off n = contour g off' n.
+Proof.
+  intros H. unfold contour. apply map_ext_in. intros v Hv. apply in_seq in Hv.
+  pose proof (lastv_lt n v ltac:(lia)) as Hl.
+  rewrite !H by (unfold zn; lia). reflexivity.
+Qed.
+
+Lemma contours_ext f g off off' sizes :
+  (forall i, 0 <= i < total sizes -> f (off + i) = g (off' + i)) ->
+  contours f off sizes = contours g off' sizes.
+Proof.
+  revert off off'; induction sizes as [|n r IH]; intros off off' H; cbn [contours]; [reflexivity|].
+  rewrite total_cons in H. pose proof (total_nonneg r) as Hr. f_equal.
+  - apply contour_ext. intros i Hi. apply H. lia.
+  - apply IH. intros i Hi. replace (off + zn n + i) with (off + (zn n + i)) by lia.
+    replace (off' + zn n + i) with (off' + (zn n + i)) by lia. apply H. unfold zn in *. lia.
+Qed.
+
+Lemma nthz_app_l l1 l2 i : 0 <= i < zn (length l1) -> nthz (l1 ++ l2) i = nthz l1 i.
+Proof. intros H. unfold nthz. apply app_nth1. unfold zn in H. lia. Qed.
+
+Lemma nthz_app_r l1 l2 i : 0 <= i -> nthz (l1 ++ l2) (zn (length l1) + i) = nthz l2 i.
+Proof.
+  intros H. unfold nthz. rewrite app_nth2 by (unfold zn; lia). f_equal. unfold zn. lia.
+Qed.
+
+Definition sizes_of (polys : list (list bool)) : list nat := map (@length bool) polys.
+
+Lemma rev_polys_coef polys nDiv full s a b :
+  let k := rev_nslices nDiv full in
+  (1 <= k)%nat ->
+  let '(ts, st, en, s1) := rev_polys polys nDiv k full s in
+  tcoef ts a b =
+  (if full then 0
+   else ccoef (contours (nthz en) 0 (sizes_of polys)) a b - ccoef (contours (nthz st) 0 (sizes_of polys)) a b)
+  /\ zn (length st) = total (sizes_of polys) /\ zn (length en) = total (sizes_of polys).
+Proof.
+  intros k Hk. revert s; induction polys as [|fl rest IH]; intros s; cbn [rev_polys sizes_of map].
+  - cbn. destruct full; auto.
+  - pose proof (rev_poly_coef fl nDiv full s a b Hk) as H1. fold k in H1.
+    destruct (rev_poly fl nDiv k full s) as [[[t1 st1] en1] s1].
+    destruct H1 as (H1 & Hst & Hen & Hs1).
+    specialize (IH s1). destruct (rev_polys rest nDiv k full s1) as [[[t2 st2] en2] s2].
+    destruct IH as (IH & Hl2 & Hl2').
+    assert (Hl1 : length st1 = length fl) by (rewrite Hst; apply length_cs_from).
+    assert (Hl1' : length en1 = length fl) by (rewrite Hen; apply length_en_from).
+    rewrite !app_length, total_cons. fold (sizes_of rest).
+    split; [|unfold zn in *; lia].
+    rewrite tcoef_app, H1, IH. destruct full; [lia|].
+    cbn [contours]. rewrite !ccoef_app.
+    rewrite (contour_ext (nthz (en1 ++ en2)) (nthz en1) 0 0) by (intros i Hi; apply nthz_app_l; unfold zn in *; lia).
+    rewrite (contour_ext (nthz (st1 ++ st2)) (nthz st1) 0 0) by (intros i Hi; apply nthz_app_l; unfold zn in *; lia).
+    rewrite (contours_ext (nthz (en1 ++ en2)) (nthz en2) (0 + zn (length fl)) 0).
+    2:{ intros i Hi. rewrite <- Hl1'. rewrite !Z.add_0_l. apply nthz_app_r. lia. }
+    rewrite (contours_ext (nthz (st1 ++ st2)) (nthz st2) (0 + zn (length fl)) 0).
+    2:{ intros i Hi. rewrite <- Hl1. rewrite !Z.add_0_l. apply nthz_app_r. lia. }
+    lia.
+Qed.
+
+(* map_tri pushes a boundary chain forward *)
+Lemma tcoef_map_rev f t a b : tcoef [rev_tri (map_tri f t)] a b = - tcoef [map_tri f t] a b.
+Proof.
+  destruct t as [[x y] z]. unfold rev_tri, map_tri. rewrite !tcoef_one.
+  pose proof (ecoef_rev (f x) (f y) a b). pose proof (ecoef_rev (f y) (f z) a b).
+  pose proof (ecoef_rev (f z) (f x) a b). lia.
+Qed.
+
+Lemma tcoef_map_rev_l f ts a b :
+  tcoef (map (fun t => rev_tri (map_tri f t)) ts) a b = - tcoef (map (map_tri f) ts) a b.
+Proof.
+  induction ts as [|t ts IH]; cbn [map]; [reflexivity|].
+  rewrite tcoef_cons, (tcoef_cons (map_tri f t)), IH, tcoef_map_rev. lia.
+Qed.
+
+(* Revolve: boundary of the side triangles, and closedness of the whole list
+   once the caps' images have the contours as boundary *)
+Lemma revolve_sides_l polys nDiv full a b :
+  (1 <= nDiv)%nat ->
+  let '(ts, st, en, nv) := rev_polys polys nDiv (rev_nslices nDiv full) full 0 in
+  tcoef ts a b =
+  (if full then 0
+   else ccoef (contours (nthz en) 0 (sizes_of polys)) a b - ccoef (contours (nthz st) 0 (sizes_of polys)) a b).
+Proof.
+  intros Hn. assert (Hk : (1 <= rev_nslices nDiv full)%nat) by (unfold rev_nslices; destruct full; lia).
+  pose proof (rev_polys_coef polys nDiv full 0 a b Hk) as H.
+  destruct (rev_polys polys nDiv (rev_nslices nDiv full) full 0) as [[[ts st] en] nv].
+  exact (proj1 H).
+Qed.
+
+Lemma revolve_closed_l polys nDiv full front :
+  (1 <= nDiv)%nat ->
+  let '(_, st, en, _) := rev_polys polys nDiv (rev_nslices nDiv full) full 0 in
+  (full = false ->
+   (forall a b, tcoef (map (map_tri (nthz st)) front) a b = ccoef (contours (nthz st) 0 (sizes_of polys)) a b) /\
+   (forall a b, tcoef (map (map_tri (nthz en)) front) a b = ccoef (contours (nthz en) 0 (sizes_of polys)) a b)) ->
+  closed (fst (revolve_tris polys nDiv full front)).
+Proof.
+  intros Hn. unfold revolve_tris.
+  pose proof (fun a b => revolve_sides_l polys nDiv full a b Hn) as H.
+  destruct (rev_polys polys nDiv (rev_nslices nDiv full) full 0) as [[[ts st] en] nv].
+  intros Hcaps a b. cbn [fst]. rewrite tcoef_app, H. destruct full.
+  - rewrite tcoef_nil. lia.
+  - destruct (Hcaps eq_refl) as [Hs He]. rewrite tcoef_app, tcoef_map_rev_l, Hs, He. lia.
+Qed.
+
+(* ---- Revolve index bounds *)
+Lemma rev_vert_range nDiv full s ps (cur prev : bool) :
+  let k := rev_nslices nDiv full in
+  (1 <= nDiv)%nat ->
+  Forall (tri_all (fun x => (s <= x < s + col_width k cur) \/ (ps <= x < ps + col_width k prev)))
+         (rev_vert nDiv k full s ps cur prev).
+Proof.
+  intros k Hn. unfold rev_vert. apply Forall_flat_map. intros sl Hsl. apply in_seq in Hsl.
+  assert (Hw : forall p, col_width k p = if p then zn k else 1).
+  { intros p. unfold col_width. replace (Nat.eqb k 0) with false; [reflexivity|].
+    symmetry. apply Nat.eqb_neq. unfold k, rev_nslices. destruct full; lia. }
+  rewrite !Hw.
+  assert (Hla : 0 <= (if Nat.eqb sl 0 then zn nDiv else zn sl) - 1 < zn k).
+  { destruct sl; cbn [Nat.eqb]; unfold k, rev_nslices, zn in *; destruct full; lia. }
+  assert (Hs : 0 <= zn sl < zn k) by (unfold zn; lia).
+  destruct (full || negb (Nat.eqb sl 0)); [|constructor].
+  set (la := (if Nat.eqb sl 0 then zn nDiv else zn sl) - 1) in *.
+  destruct cur, prev; cbn [app]; repeat (apply Forall_cons; [cbn; repeat split|]); try apply Forall_nil; lia.
+Qed.
+
+Lemma wsum_nonneg k fl : 0 <= wsum k fl.
+Proof.
+  induction fl as [|c r IH]; cbn [wsum]; [lia|]. unfold col_width.
+  destruct c, (Nat.eqb k 0); unfold zn; lia.
+Qed.
+
+Lemma cstart_bounds k all s0 u : (u < length all)%nat ->
+  s0 <= cstart k all s0 u /\ cstart k all s0 u + col_width k (nth u all false) <= s0 + wsum k all.
+Proof.
+  intros Hu. split; [unfold cstart; pose proof (wsum_nonneg k (firstn u all)); lia|].
+  rewrite <- cstart_S by exact Hu. unfold cstart.
+  rewrite <- (firstn_skipn (S u) all) at 2. rewrite wsum_app.
+  pose proof (wsum_nonneg k (skipn (S u) all)). lia.
+Qed.
+
+Lemma rev_go_tris_range all pre rem nDiv full s0 :
+  let k := rev_nslices nDiv full in
+  (1 <= nDiv)%nat ->
+  all = pre ++ rem ->
+  Forall (tri_all (fun x => s0 <= x < s0 + wsum k all))
+         (rev_go_tris all rem nDiv k full (count_axis all) (count_pos all) (length pre)
+                      (cstart k all s0 (length pre))).
+Proof.
+  intros k Hn. assert (Hk : (1 <= k)%nat) by (unfold k, rev_nslices; destruct full; lia).
+  revert pre; induction rem as [|c r IH]; intros pre Hall; cbn [rev_go_tris]; [constructor|].
+  assert (Hlen : length all = (length pre + S (length r))%nat) by (subst all; rewrite app_length; reflexivity).
+  assert (Hc : nth (length pre) all false = c).
+  { subst all. rewrite app_nth2 by lia. replace (length pre - length pre)%nat with 0%nat by lia. reflexivity. }
+  apply Forall_app; split.
+  - set (pv := length pre) in *.
+    assert (Hprev : (if Nat.eqb pv 0 then length all - 1 else pv - 1)%nat = lastv (length all) pv).
+    { unfold lastv. destruct (Nat.eqb pv 0); reflexivity. }
+    rewrite Hprev. set (pu := lastv (length all) pv).
+    assert (Hpu : (pu < length all)%nat) by (apply lastv_lt; lia).
+    assert (Hps : cstart k all s0 pv + (if Nat.eqb pv 0 then count_axis all + zn k * count_pos all else 0)
+                  + (if nth pu all false then - zn k else -1) = cstart k all s0 pu).
+    { rewrite col_width_neg by exact Hk. unfold pu, lastv. destruct (Nat.eqb pv 0) eqn:E.
+      - apply Nat.eqb_eq in E. rewrite E. rewrite <- wsum_counts by exact Hk.
+        pose proof (cstart_S k all s0 (length all - 1) ltac:(lia)) as HS.
+        replace (S (length all - 1)) with (length all) in HS by lia.
+        rewrite cstart_len in HS. unfold cstart at 1. cbn [firstn wsum]. lia.
+      - apply Nat.eqb_neq in E.
+        pose proof (cstart_S k all s0 (pv - 1) ltac:(lia)) as HS.
+        replace (S (pv - 1)) with pv in HS by lia. lia. }
+    rewrite Hps.
+    eapply Forall_impl; [|apply rev_vert_range; exact Hn].
+    intros t. apply tri_all_impl. intros x Hx.
+    pose proof (cstart_bounds k all s0 pv ltac:(lia)) as B1. rewrite Hc in B1.
+    pose proof (cstart_bounds k all s0 pu Hpu) as B2. fold k in Hx. lia.
+  - specialize (IH (pre ++ [c])). rewrite app_length in IH. cbn [length] in IH.
+    replace (length pre + 1)%nat with (S (length pre)) in IH by lia.
+    rewrite cstart_S in IH by lia. rewrite Hc in IH.
+    apply IH. subst all. rewrite <- app_assoc. reflexivity.
+Qed.
+
+Lemma rev_polys_range polys nDiv full s :
+  let k := rev_nslices nDiv full in
+  (1 <= nDiv)%nat ->
+  let '(ts, st, en, s1) := rev_polys polys nDiv k full s in
+  s <= s1 /\ Forall (tri_all (fun x => s <= x < s1)) ts.
+Proof.
+  intros k Hn. revert s; induction polys as [|fl rest IH]; intros s; cbn [rev_polys].
+  - split; [lia|constructor].
+  - unfold rev_poly. rewrite rev_poly_go_eq.
+    specialize (IH (s + wsum k fl)). destruct (rev_polys rest nDiv k full (s + wsum k fl)) as [[[t2 st2] en2] s2].
+    destruct IH as [Hle IH]. pose proof (wsum_nonneg k fl) as Hw. split; [lia|].
+    apply Forall_app; split.
+    + pose proof (rev_go_tris_range fl [] fl nDiv full s Hn eq_refl) as H. cbn [length] in H.
+      unfold cstart at 1 in H. cbn [firstn wsum] in H. replace (s + 0) with s in H by lia.
+      eapply Forall_impl; [|exact H]. intros t. apply tri_all_impl. fold k. intros x Hx. lia.
+    + eapply Forall_impl; [|exact IH]. intros t. apply tri_all_impl. intros x Hx. lia.
+Qed.
+
+Lemma tri_all_range nv t : tri_all (fun x => 0 <= x < nv) t -> tri_in_range nv t.
+Proof. destruct t as [[x y] z]. cbn. auto. Qed.
+
+Lemma revolve_sides_range_l polys nDiv full :
+  (1 <= nDiv)%nat ->
+  let '(ts, st, en, nv) := rev_polys polys nDiv (rev_nslices nDiv full) full 0 in
+  Forall (tri_in_range nv) ts.
+Proof.
+  intros Hn. pose proof (rev_polys_range polys nDiv full 0 Hn) as H.
+  destruct (rev_polys polys nDiv (rev_nslices nDiv full) full 0) as [[[ts st] en] nv].
+  destruct H as [_ H]. eapply Forall_impl; [|exact H]. intros t. apply tri_all_range.
 Qed.
